@@ -217,6 +217,10 @@ func vfCheck[C any](t *testing.T, prop string, gen func(*rapid.T) C, run func(C,
 	}
 	defer write()
 
+	// distinct non-trivial cases are counted through a set of hashes; to bound memory the set stops
+	// growing at ntCap per process (further non-trivial cases are tallied separately, so the reported
+	// distinct count is a lower bound)
+	ntCap := vfEnvInt("VERIF_NT_CAP", 250000)
 	active := map[string]bool{}
 	newCtx := func() *vfCtx {
 		return &vfCtx{classes: map[string]int{}, counters: map[string]int64{}, stats: map[string][2]float64{}, activeAttr: active, tier: tier}
@@ -324,7 +328,9 @@ func vfCheck[C any](t *testing.T, prop string, gen func(*rapid.T) C, run func(C,
 				}
 			}
 			res.Excluded += ctx.excluded
-			if ctx.nontrivial {
+			if ctx.nontrivial && len(nt) >= ntCap {
+				res.Counters["nontrivial_cases_beyond_hash_cap(not counted as distinct)"]++
+			} else if ctx.nontrivial {
 				h := vfHash(cj)
 				if _, seen := nt[h]; !seen {
 					nt[h] = struct{}{}
